@@ -55,6 +55,13 @@ def opt(x):
     return "-" if x is None else str(x)
 
 
+def num(x):
+    """integers held in a float (database size derived from the file size) print as integers"""
+    if isinstance(x, float) and x == int(x):
+        return str(int(x))
+    return str(x)
+
+
 def show_cell(c):
     ov = ""
     rec = "/h-/cols[]"
@@ -158,7 +165,7 @@ def base_sections(db):
         t = t.next_freelist_trunk_page
     ms = db.master_schema
     pm = "|".join(
-        f"{p.number}:{p.number_of_entries}:" + ",".join(
+        f"{p.number}:{num(p.number_of_entries)}:" + ",".join(
             f"{e.page_number}/{e.page_type[0]}/{e.parent_page_number}" for e in p.pointer_map_entries)
         for p in db.pointer_map_pages)
     order = {"table": 0, "index": 1, "view": 2, "trigger": 3}
@@ -258,7 +265,7 @@ def version_sections(v, with_trees=True):
         trunks.append(f"{t.number}:{t.next_freelist_trunk_page_number}:[{','.join(map(str, t.freelist_leaf_page_numbers))}]")
         t = t.next_freelist_trunk_page
     pm = "|".join(
-        f"{p.number}:{p.number_of_entries}:" + ",".join(
+        f"{p.number}:{num(p.number_of_entries)}:" + ",".join(
             f"{e.page_number}/{e.page_type[0]}/{e.parent_page_number}" for e in p.pointer_map_entries)
         for p in v.pointer_map_pages)
     pfi = getattr(v, "page_frame_index", {}) or {}
